@@ -58,11 +58,12 @@ def run_worker(job, workdir):
     return r
 
 
-def replay_concrete(rep, fixdir):
+def replay_concrete(rep, fixdir, noskip=False):
     """run the harness function on concrete arguments in a plain interpreter (no CrossHair, no glue).
     returns (reproduced: bool, detail: str)"""
     env = _env({'VERIF_TIER': rep.get('tier', 'quick'), 'VERIF_TWIN': '0', 'VERIF_FIXDIR': fixdir or '',
-                'VERIF_ITEM': rep.get('item') or '', 'VERIF_ASPECT': rep.get('property') or ''})
+                'VERIF_ITEM': rep.get('item') or '', 'VERIF_ASPECT': rep.get('property') or '',
+                'VERIF_NOSKIP': '1' if noskip else '0'})
     p = subprocess.run([PY, '-m', 'vlib.replay', '--inline', json.dumps(rep)], env=env, cwd=ROOT,
                        stdout=subprocess.PIPE, stderr=subprocess.STDOUT, timeout=600)
     out = p.stdout.decode('utf-8', 'replace')
@@ -233,7 +234,7 @@ def main(argv):
         # known findings: replay each open witness; listed + reproducing => KNOWN-FINDING line
         known_lines = []
         for k in known:
-            ok, out, rc = replay_concrete(k['replay'], fixdir)
+            ok, out, rc = replay_concrete(k['replay'], fixdir, noskip=True)
             if ok:
                 known_lines.append('KNOWN-FINDING: property=%s %s' % (prop, k['what']))
             else:
